@@ -421,7 +421,13 @@ pub fn honest(rng: &mut StdRng, depth: usize, dummy: bool) -> Wit {
 }
 
 /// target-level mutations (each keeps every other wire as in the honest witness)
-fn mutate(rng: &mut StdRng, w: &mut Wit) -> String {
+/// another digest with the same sum of limbs (mod p)
+fn sumshift(rng: &mut StdRng, d: &Dg) -> Dg {
+    let delta = 1 + rng.gen::<u64>() % (P - 1);
+    [((d[0] as u128 + delta as u128) % P as u128) as u64, ((d[1] as u128 + P as u128 - delta as u128) % P as u128) as u64, d[2], d[3]]
+}
+
+fn mutate(rng: &mut StdRng, w: &mut Wit, pick: usize) -> String {
     let muts = [
         "none", "split-secret", "split-count", "foreign-to", "single-hash-nullifier", "foreign-nullifier", "root-unrelated", "troot-unrelated",
         "header-parent", "header-number", "header-digest", "bhash-zero", "bhash-garbage", "flag0", "flag1", "depth17", "depth+1", "depth-1",
@@ -431,8 +437,12 @@ fn mutate(rng: &mut StdRng, w: &mut Wit) -> String {
         "split-secret+nullifier-follows", "split-count-lo+nullifier-follows", "split-count-hi+nullifier-follows", "troot-unrelated+bhash-follows",
         "root-unrelated+troot+bhash-follow", "foreign-to+aid+nullifier-keeps", "solve-out1", "solve-out2", "solve-in", "solve-fee",
         "depth17+root-follows", "pos4-inactive-only", "pos5-active+root-follows", "flag0+sibling-changed", "flag0+leaf-foreign-path", "count-limb-alias+nullifier-follows", "count-limb-alias-neg+nullifier-follows",
+        // compressed comparisons: a digest that differs from the right one but has the SAME limb sum (what survives when four
+        // per-limb equalities are folded into one equality of sums - seeded C03, second round)
+        "root-sumshift+troot+bhash-follow", "troot-sumshift+bhash-follows", "nullifier-sumshift", "root-sumshift+troot+bhash-follow",
     ];
-    let m = muts[rng.gen_range(0..muts.len())];
+    // kinds are cycled, not drawn: every kind is exercised once per muts.len() mutations, whatever the seed
+    let m = muts[pick % muts.len()];
     let d = w.depth as usize;
     match m {
         "split-secret" => w.nsec = rd(rng),
@@ -480,6 +490,9 @@ fn mutate(rng: &mut StdRng, w: &mut Wit) -> String {
         "split-count-lo+nullifier-follows" => { w.ntc[1] ^= 1; w.nhash = nullifier(&w.nsec, &w.ntc); }
         "split-count-hi+nullifier-follows" => { w.ntc[0] ^= 1; w.nhash = nullifier(&w.nsec, &w.ntc); }
         "troot-unrelated+bhash-follows" => { w.troot = rd(rng); w.bhash = block_hash(&w.hdr, &w.troot); }
+        "root-sumshift+troot+bhash-follow" => { w.root = sumshift(rng, &w.root); w.troot = w.root; w.bhash = block_hash(&w.hdr, &w.troot); }
+        "troot-sumshift+bhash-follows" => { w.troot = sumshift(rng, &w.troot); w.bhash = block_hash(&w.hdr, &w.troot); }
+        "nullifier-sumshift" => w.nhash = sumshift(rng, &w.nhash),
         "root-unrelated+troot+bhash-follow" => { w.root = rd(rng); w.troot = w.root; w.bhash = block_hash(&w.hdr, &w.troot); }
         "foreign-to+aid+nullifier-keeps" => { let x = rd(rng); w.lto = x; w.aid = x; }
         "solve-out1" | "solve-out2" | "solve-in" | "solve-fee" => {
@@ -557,9 +570,9 @@ pub fn record(outp: &str, nplans: usize, seed: u64) -> Result<()> {
             let mut out = vec![];
             let hv = engine::run(&leaf.data, &leaf.inputs(&base));
             out.push(event(&base, &hv, true, if dummy { "honest-dummy" } else { "honest" }));
-            for _ in 0..3 {
+            for j in 0..3usize {
                 let mut w = base.clone();
-                let m = mutate(&mut rng, &mut w);
+                let m = mutate(&mut rng, &mut w, i * 3 + j + seed as usize);
                 if m == "none" { continue; }
                 let v = engine::run(&leaf.data, &leaf.inputs(&w));
                 out.push(event(&w, &v, false, &m));
